@@ -116,7 +116,7 @@ def do_case(ctx, inp):
 
 def run(ctx):
     rng = ctx.rng
-    n = (150 if ctx.quick else 2500) * (3 if ctx.search else 1)
+    n = (300 if ctx.quick else 2500) * (3 if ctx.search else 1)
     for _ in range(n):
         if rng.random() < 0.5:
             a, o, t = valid_configurator(rng, ctx.quick, int_leaf=rng.random() < 0.3)
